@@ -1075,6 +1075,8 @@ class Exec:
             p.assume(a)
         if isinstance(res, VObj) and "fresh_result" in c.note:
             p.assume(z3.And(res.t >= front0, res.t < p.frontier))
+        if isinstance(res, VSeq) and "np.vector" in c.note:
+            res = VSeq(res.t, res.elem, "ndarray")         # a numpy 1-D array: arithmetic with scalars is elementwise
         post = SpecEnv(self, p, dict(pre.env), old=oldp, contract=c)
         post.env["result"] = res
         finals = {}
